@@ -537,9 +537,112 @@ fn blocked_pipeline_cases(h: &mut Harness, res: &mut Vec<Value>) -> Result<(), S
     Ok(())
 }
 
+
+/// (P)SUBSCRIBE / (P)UNSUBSCRIBE answer one acknowledgement per name given (all of the subscriptions, or one, without
+/// names) whatever the connection is subscribed to: 5 subscription states x 4 commands x 7 argument lists over a
+/// subscribed and a not subscribed name (incl. both orders and duplicates), each followed by a marker in the same write.
+fn pubsub_ack_cases(h: &mut Harness, res: &mut Vec<Value>) -> Result<(), String> {
+    let states: Vec<(&str, Vec<Vec<&str>>)> = vec![
+        ("no subscription", vec![]),
+        ("SUBSCRIBE a", vec![vec!["SUBSCRIBE", "a"]]),
+        ("SUBSCRIBE a b", vec![vec!["SUBSCRIBE", "a", "b"]]),
+        ("PSUBSCRIBE a*", vec![vec!["PSUBSCRIBE", "a*"]]),
+        ("SUBSCRIBE a, PSUBSCRIBE a*", vec![vec!["SUBSCRIBE", "a"], vec!["PSUBSCRIBE", "a*"]]),
+    ];
+    let lists: Vec<Vec<usize>> = vec![vec![], vec![0], vec![1], vec![0, 1], vec![1, 0], vec![0, 0], vec![1, 1]];
+    for (sname, setup) in states.iter() {
+        for cmd in ["UNSUBSCRIBE", "PUNSUBSCRIBE", "SUBSCRIBE", "PSUBSCRIBE"] {
+            let pattern_cmd = cmd.starts_with('P');
+            let names: [&str; 2] = if pattern_cmd { ["a*", "x*"] } else { ["a", "x"] };
+            for l in lists.iter() {
+                h.ensure()?;
+                let mut cli = h.srv.as_ref().unwrap().connect().map_err(|e| format!("connect: {:?}", e))?;
+                let mut setup_frames = 0usize;
+                let mut chans: Vec<&str> = Vec::new();
+                let mut pats: Vec<&str> = Vec::new();
+                for c in setup.iter() {
+                    cli.send(&resp::cmd(c));
+                    setup_frames += c.len() - 1;
+                    for n in c.iter().skip(1) {
+                        if c[0] == "SUBSCRIBE" { chans.push(n) } else { pats.push(n) }
+                    }
+                }
+                let (got0, err0) = h.collect(&mut cli, setup_frames, 4);
+                if err0.is_some() || got0.len() != setup_frames {
+                    return Err(format!("pub/sub set-up {}: {} frames, {:?}", sname, got0.len(), err0));
+                }
+                let args: Vec<&str> = l.iter().map(|i| names[*i]).collect();
+                let mut full: Vec<&str> = vec![cmd];
+                full.extend(args.iter());
+                let mut bytes = resp::cmd(&full);
+                bytes.extend(resp::cmd(&["ECHO", "marker"]));
+                cli.send(&bytes);
+                // expected acknowledgements: (kind, name or None for "any / nil")
+                let held = if pattern_cmd { pats.len() } else { chans.len() };
+                let kind = cmd.to_lowercase();
+                let mut want: Vec<Option<String>> = Vec::new();
+                let mut want_error = false;
+                if args.is_empty() {
+                    if cmd.ends_with("UNSUBSCRIBE") {
+                        for _ in 0..held.max(1) {
+                            want.push(None);
+                        }
+                    } else {
+                        want_error = true; // SUBSCRIBE without a channel is an arity error: one error reply
+                    }
+                } else {
+                    for a in args.iter() {
+                        want.push(Some(a.to_string()));
+                    }
+                }
+                let nwant = if want_error { 1 } else { want.len() };
+                let (got, err) = h.collect(&mut cli, nwant + 1, 4);
+                let mut problem: Option<String> = None;
+                if err.is_some() {
+                    problem = Some(format!("error: {}", err.clone().unwrap()));
+                } else if got.len() != nwant + 1 {
+                    problem = Some(if got.len() < nwant + 1 { "missing-reply".into() } else { "extra-reply".into() });
+                } else if got[nwant] != R::Bulk(b"marker".to_vec()) {
+                    problem = Some("out-of-order".into());
+                } else if want_error {
+                    if !got[0].is_err() {
+                        problem = Some("no-error-reply".into());
+                    }
+                } else {
+                    for (i, w) in want.iter().enumerate() {
+                        let ok = match &got[i] {
+                            R::Arr(v) if v.len() == 3 => {
+                                v[0] == R::Bulk(kind.clone().into_bytes()) && match w {
+                                    Some(n) => v[1] == R::Bulk(n.clone().into_bytes()),
+                                    None => true,
+                                } && matches!(v[2], R::Int(_))
+                            }
+                            _ => false,
+                        };
+                        if !ok {
+                            problem = Some(format!("acknowledgement-{}-wrong", i + 1));
+                            break;
+                        }
+                    }
+                }
+                let shown: Vec<String> = got.iter().map(resp::show).collect();
+                cli.discard();
+                if let Some(s) = h.srv.as_ref() {
+                    if !s.is_dead() {
+                        let _ = s.steps(2);
+                    }
+                }
+                res.push(json!({"name": format!("pub/sub acknowledgements: [{}] then {} {}", sname, cmd, args.join(" ")), "outcome": problem.unwrap_or_else(|| "in-order".into()), "replies": shown}));
+            }
+        }
+    }
+    Ok(())
+}
+
 fn violation_task(h: &mut Harness) -> Result<Value, String> {
     let mut res = Vec::new();
     blocked_pipeline_cases(h, &mut res)?;
+    pubsub_ack_cases(h, &mut res)?;
     for (name, frame) in malformed_frames() {
         h.ensure()?;
         let mut cli = h.srv.as_ref().unwrap().connect().map_err(|e| format!("connect: {:?}", e))?;
